@@ -334,6 +334,13 @@ def _b_pointcoll(w, a, dt="i", homogenize=False, how="ctor"):
     return PointCollection(arr, homogenize=homogenize)
 
 
+def _b_emptycoll(w, n, what="point"):
+    """a collection with zero elements"""
+    if what == "transf":
+        return TransformationCollection(np.zeros((0, n, n)))
+    return PointCollection(np.zeros((0, n)))
+
+
 def _b_line(w, c, dt="i"):
     return Line(_arr(c, dt))
 
